@@ -230,6 +230,10 @@ func (e *Engine) guardedKeys(class string) []string {
 func (e *Engine) acquire(st *State, class string, ref string, fx *FnExec) {
 	keys := e.guardedKeys(class)
 	allocBefore := e.heapGet(st, e.keyAlloc())
+	var before *State
+	if len(e.w.spec.Mono[class]) > 0 {
+		before = st.clone()
+	}
 	for _, k := range keys {
 		e.heapHavoc(st, k)
 	}
@@ -238,6 +242,10 @@ func (e *Engine) acquire(st *State, class string, ref string, fx *FnExec) {
 	st.heap[e.keyAlloc()] = na
 	e.assume(st, "(>= "+na+" "+allocBefore+")")
 	e.assumeTrackedWF(st)
+	// monotone facts survive the havoc: what this goroutine knew before still bounds the new state
+	for _, m := range e.w.spec.Mono[class] {
+		e.assume(st, e.evalClauseOn(m, st, before, ref, fx))
+	}
 	// assume the lock invariant
 	for _, li := range e.w.spec.LockInvs[class] {
 		g := e.evalClauseOn(li.Clause, st, nil, ref, fx)
@@ -855,6 +863,7 @@ func (fx *FnExec) applyContract(st *State, callee *ssa.Function, con *FnContract
 		na := e.c.fresh("alloc", SInt)
 		st.heap[e.keyAlloc()] = na
 		e.assume(st, "(>= "+na+" "+allocBefore+")")
+		e.assumeTrackedWF(st)
 	}
 	var rv *Val
 	if rt != nil {
